@@ -321,7 +321,7 @@ pub fn run(ctx: &RunCtx) -> Outcome {
     // reference, exponential for an engine that forgets to commit
     {
         let lp = Limits { only_pos0: true };
-        let long: Vec<String> = vec!["a".repeat(26), "a".repeat(30) + "b", "a".repeat(22) + "c", "ab".repeat(13)];
+        let long: Vec<String> = vec!["a".repeat(26), "a".repeat(30) + "b", "a".repeat(22) + "c", "ab".repeat(13), "ba".repeat(15) + "!", "ba".repeat(12) + "c"];
         if !stage(ctx, &mut o, &lp, "loops around committing constructs x long texts (offset 0)", &gen::loop_commit_products(), &long) {
             return o;
         }
